@@ -93,7 +93,7 @@ def stress_runner(scn, oracle, race=False, scale_quick=1, scale_thorough=6, conf
         def once(seed):
             env = dict(os.environ, GORACE="halt_on_error=0")
             try:
-                rc, out = _run([binary, "stress", scn, "-seed", str(seed), "-scale", str(scale)], timeout=1500, env=env)
+                rc, out = _run([binary, "stress", scn, "-seed", str(seed), "-scale", str(scale)], timeout=(240 if ctx["tier"] == "quick" else 1500), env=env)
             except subprocess.TimeoutExpired:
                 return 1, "stress %s runs=0 violations={watchdog: 1} VIOLATION (timeout: deadlock?)" % scn, [], ""
             line = next((l for l in out.splitlines() if l.startswith("stress " + scn)), "stress %s produced no summary: %s" % (scn, out[-300:]))
